@@ -205,7 +205,7 @@ SAFE_METHODS = {
           'find', 'rfind', 'index', 'rindex', 'count', 'isalpha', 'isalnum', 'isspace', 'islower', 'isupper', 'title', 'capitalize', 'casefold', 'swapcase',
           'zfill', 'ljust', 'rjust', 'center', 'partition', 'rpartition', 'removeprefix', 'removesuffix', 'expandtabs', 'isidentifier', 'isnumeric',
           'isdecimal', 'istitle', 'translate'},
-    set: {'add', 'discard', 'copy', 'update'},
+    set: {'add', 'discard', 'copy', 'update', 'isdisjoint', 'issubset', 'issuperset', 'union', 'intersection', 'difference'},
     tuple: {'index', 'count'},
     re.Match: {'group', 'groups', 'start', 'end', 'span'},
     re.Pattern: {'fullmatch', 'match', 'search', 'findall', 'split', 'finditer'},
